@@ -46,7 +46,13 @@ type config struct {
 	rows    [4]int
 	jm      string
 	foreign bool
-	seed    uint64 // row contents
+	// coll bit i: a foreign object of the OTHER kind carries the name of v1 object i (tables and
+	// indexes share one name space in SQLite): an index called key_trackers/…/lease_entries on the
+	// foreign table zz_other, a table called idx_hash. The v1 object itself is absent (coll&mask == 0);
+	// the opener's tableExists/indexExists do not see the foreign object, but the CREATE statement of
+	// the migration script that wants the name fails, so the script breaks off part-way.
+	coll int
+	seed uint64 // row contents
 }
 
 func must(err error) {
@@ -67,11 +73,28 @@ func fabricate(path string, c config) {
 			must(err)
 		}
 	}
-	if c.foreign || (c.mask>>4&1 == 1 && c.mask&15 == 0) {
+	if c.coll&c.mask != 0 {
+		panic("coll overlaps mask")
+	}
+	if c.foreign || (c.mask>>4&1 == 1 && c.mask&15 == 0) || c.coll&15 != 0 {
 		_, err = db.Exec("CREATE TABLE `zz_other` (`x` blob, `y` integer)")
 		must(err)
 		for j := 0; j < 3; j++ {
 			_, err = db.Exec("INSERT INTO `zz_other` VALUES (?, ?)", rng.Bytes(5), int64(rng.Intn(1000)))
+			must(err)
+		}
+	}
+	for i := 0; i < 4; i++ {
+		if c.coll>>i&1 == 1 {
+			_, err = db.Exec(fmt.Sprintf("CREATE INDEX `%s` ON `zz_other`(`%s`)", objNames[i], hlib.Pick(rng, []string{"x", "y"})))
+			must(err)
+		}
+	}
+	if c.coll>>4&1 == 1 {
+		_, err = db.Exec("CREATE TABLE `idx_hash` (`note` blob, `n` integer)")
+		must(err)
+		for j := 0; j < 1+rng.Intn(3); j++ {
+			_, err = db.Exec("INSERT INTO `idx_hash` VALUES (?, ?)", rng.Bytes(4), int64(rng.Intn(1000)))
 			must(err)
 		}
 	}
@@ -201,7 +224,7 @@ func fileBytes(path string) []byte {
 
 func main() {
 	r := hlib.Start()
-	r.Rule = "configurations (user_version, subset of the 5 v1 objects, rows per table, journal mode, foreign table); non-trivial = distinct configuration; exhaustive over user_version∈{0,1,2}(thorough: also -1,3)×2^5 subsets×{empty,rows} with the repo's own DSN, newer-version files (user_version 2, 3, max) with the complete or nearly complete v1 schema, rows and an unknown table, then seeded variants (DELETE journal, foreign table, extreme user_version, other row contents)"
+	r.Rule = "configurations (user_version, subset of the 5 v1 objects, rows per table, journal mode, foreign table); non-trivial = distinct configuration; exhaustive over user_version∈{0,1,2}(thorough: also -1,3)×2^5 subsets×{empty,rows} with the repo's own DSN, newer-version files (user_version 2, 3, max) with the complete or nearly complete v1 schema, rows and an unknown table, files in which a foreign index/table occupies the name of an absent v1 object so that the migration script fails part-way (fresh files × every non-empty set of occupied names, every other user_version∈{0,1,2,-1}×subset with one random set, thorough: all 3^5 disjoint pairs), then seeded variants (DELETE journal, foreign table, occupied names, extreme user_version, other row contents)"
 	cache := os.Getenv("WAZERO_CACHE")
 	if cache == "" {
 		cache = filepath.Join(os.TempDir(), "verif-wazero")
@@ -280,9 +303,37 @@ func main() {
 		caseNo++
 		r.Raw(fmt.Sprintf("# case %d", caseNo))
 		lhs := fmt.Sprintf("open %d %d %d,%d,%d,%d %s %s", c.uv, c.mask, c.rows[0], c.rows[1], c.rows[2], c.rows[3], c.jm, hlib.B(c.foreign))
+		key := fmt.Sprintf("%d/%d/%v/%s/%v", c.uv, c.mask, c.rows, c.jm, c.foreign)
+		if c.coll != 0 {
+			lhs += fmt.Sprintf(" %d", c.coll)
+			key += fmt.Sprintf("/coll%d", c.coll)
+		}
 		r.Emit(lhs, fmt.Sprintf("%s %d %d %s %s %s %s", out, s1.uv, s1.mask(), s1.countStr(), rowsSame, schema, bs))
-		r.Case(fmt.Sprintf("%d/%d/%v/%s/%v", c.uv, c.mask, c.rows, c.jm, c.foreign))
+		r.Case(key)
 		r.Count("outcome:" + out)
+		if c.coll != 0 {
+			r.Count("foreign-object-on-a-v1-name:" + out)
+			// would the migration script run (uv below current, not refused by the partial-schema test)
+			// and hit the occupied name only after creating something?
+			runs := c.uv < 0 || (c.uv == 0 && c.mask == 0)
+			if runs && out == "refuse" {
+				first := -1
+				for _, i := range []int{0, 4, 1, 2, 3} { // statement order of 0001-initial-schema.sql
+					if c.coll>>i&1 == 1 {
+						break
+					}
+					if c.mask>>i&1 == 0 {
+						first = i
+						break
+					}
+				}
+				if first >= 0 {
+					r.Count("migration-script-fails-after-creating-objects")
+				} else {
+					r.Count("migration-script-fails-before-creating-anything")
+				}
+			}
+		}
 		switch {
 		case c.uv < 0:
 			r.Count("uv:negative")
@@ -354,6 +405,9 @@ func main() {
 			uv, _ := strconv.Atoi(t[1])
 			mask, _ := strconv.Atoi(t[2])
 			c := config{uv: uv, mask: mask, jm: t[4], foreign: t[5] == "true", seed: r.Seed}
+			if len(t) >= 7 {
+				c.coll, _ = strconv.Atoi(t[6])
+			}
 			for i, x := range strings.Split(t[3], ",") {
 				if i < 4 {
 					c.rows[i], _ = strconv.Atoi(x)
@@ -389,6 +443,39 @@ func main() {
 		}
 		run(mk(uv, 31, true, "delete", false, rng.U64()))
 	}
+	// a migration script that breaks off part-way: a foreign object of the other kind sits on the name
+	// of an absent v1 object, so one CREATE of the script fails after earlier ones have run. Fresh
+	// files (user_version 0, no v1 object) with every non-empty set of occupied names; every other
+	// (user_version, object subset) with one random non-empty set of occupied names among the absent
+	// objects (thorough: all of them), negative user_version included (the script then runs on top of
+	// whatever objects exist).
+	subsetOf := func(free int) int {
+		for {
+			if x := rng.Intn(32) & free; x != 0 {
+				return x
+			}
+		}
+	}
+	collUvs := []int{0, 1, 2, -1}
+	for _, uv := range collUvs {
+		for mask := 0; mask < 31; mask++ {
+			free := 31 &^ mask
+			for coll := 1; coll < 32; coll++ {
+				if coll&^free != 0 {
+					continue
+				}
+				if !(r.Thorough() || (uv == 0 && mask == 0)) {
+					coll = subsetOf(free)
+				}
+				c := mk(uv, mask, mask&15 != 0 && rng.Chance(60), "wal", rng.Chance(30), rng.U64())
+				c.coll = coll
+				run(c)
+				if !(r.Thorough() || (uv == 0 && mask == 0)) {
+					break
+				}
+			}
+		}
+	}
 	extra := 60
 	if r.Thorough() {
 		extra = 2500
@@ -408,7 +495,11 @@ func main() {
 		if rng.Chance(35) {
 			jm = "delete"
 		}
-		run(mk(hlib.Pick(rng, uvs), mask, rng.Chance(70), jm, rng.Chance(40), rng.U64()))
+		c := mk(hlib.Pick(rng, uvs), mask, rng.Chance(70), jm, rng.Chance(40), rng.U64())
+		if mask != 31 && rng.Chance(30) {
+			c.coll = subsetOf(31 &^ mask)
+		}
+		run(c)
 	}
 	flush()
 	r.Extra["refused_opens_with_byte_level_change_on_DELETE_journal_files"] = byteDiffRefusedDelete
